@@ -8,7 +8,7 @@ HOOK_COMMITS = ["630d187", "016cd5f"]
 CHECKS = {
     "C01": (
         "exhaustive enumeration of all programs up to N statements (every composition over lines, three entry modes, all reply scripts) executed on the real interpreter in lockstep with a reference statement interpreter",
-        "Every program of the bounded space (quick: N<=2 full alphabet, N=3 medium, N=4 core, N<=3 over a 32-statement mixed-feature alphabet with DATA/READ/RESTORE, DEF FN, arrays, strings, SWAP, CLEAR, ERASE, INPUT; thorough: N<=3 full, N=4 medium, N=4 mixed) is run through lexer, parser, codegen, linker and VM and its transcript (output, trace brackets, prompts, terminating condition with line) compared with a reference interpreter written from the manual; smallest counterexample first. Exhaustive within the bound (small-scope hypothesis for larger programs).",
+        "Every program of the bounded space (quick: N<=2 full alphabet, N=3 medium, N=4 core, N<=3 over a 32-statement mixed-feature alphabet with DATA/READ/RESTORE, DEF FN, arrays, strings, SWAP, CLEAR, ERASE, INPUT; thorough: N<=3 full, N=4 medium, N=5 core, N=4 mixed) is run through lexer, parser, codegen, linker and VM and its transcript (output, trace brackets, prompts, terminating condition with line) compared with a reference interpreter written from the manual; smallest counterexample first. Exhaustive within the bound (small-scope hypothesis for larger programs).",
         "Trusts the reference interpreter (refmodel/interp.rs) as the reading of the manual; programs it marks undefined are skipped and counted; diverging programs are compared on a prefix.",
         "DESIGN.md §3 C01",
     ),
